@@ -249,4 +249,5 @@ def _(self: "ElectronicControlUnit"):
                          and forall(lambda p: self._timer_events[p] == at_head(self._timer_events[p + 1]),
                                     last_removed_index(), len(self._timer_events))))
     # the thread sleeps only for a positive time that ends no later than the earliest deadline it computed
-    callout_check("C12.sleep", implies(ev.fn == fn("queue.Queue.get"), ev.r2 > 0 and ev.r2 <= next_wakeup - now))
+    # (clock: the latest time reading or call-out return - real time never runs behind it)
+    callout_check("C12.sleep", implies(ev.fn == fn("queue.Queue.get"), ev.r2 > 0 and ev.r2 <= next_wakeup - clock))
